@@ -30,8 +30,10 @@ type WIn struct {
 }
 
 type WEmb struct {
-	EA int
-	ES string
+	EA  int
+	ES  string
+	EIn WIn   // a nested struct and a slice of structs inside the embedded one
+	EL  []WIn // (the anonymous-flatten mangler hoists them to the top level)
 }
 
 // WGuard is embedded in CfgWrap: a struct without exported fields, which the
